@@ -4,7 +4,7 @@
    Interpretation recorded in DESIGN.md: "returned nil / an error" means RECORDED as the exit of the current
    instance by its bookkeeping section (an instance superseded between returning and recording is treated as
    cancelled and its result dropped; the pinned suite relies on this). *)
-From Util Require Import Common.Base Common.ListLemmas Routine.Model Routine.Proofs Routine.ProofsC14 Routine.ProofsC14b.
+From Util Require Import Common.Base Common.ListLemmas Routine.Model Routine.Proofs Routine.ProofsC14 Routine.ProofsC14b Routine.Spec Routine.Sweep.
 
 (* nothing but API calls and retry-timer callbacks can start an instance, change the routine or the context *)
 Theorem c14_passive_events_never_start : forall s e, passive e = true ->
@@ -115,3 +115,22 @@ Example c14_example_success_final :
              [ESetCtx 1 false; ESetRoutine 1; EProceed 0 true; EReturn 0 ONil; EBook 0; ESetCtx 2 true; EAdvance 1000] in
   length (insts s) = 1 /\ rsucc (getr s 0) = true /\ bo s = Some ([100]%N, 0).
 Proof. vm_compute. repeat split; reflexivity. Qed.
+
+(* The monitors (what is evaluated on implementation traces) accept the model's own behaviour - BOUNDED: every
+   sequence of at most 5 events over the fixed alphabet of Routine/Sweep.v that the schedule-level model accepts, in
+   five configurations (plain / back-off / exit gates / state container / state container with equality mod 2 and
+   back-off), and every continuation of at most 4 events after three deeper prefixes (fired retry timer then
+   RestartRoutine; a chain of three instances; a running state routine with a blocked WaitExited caller).  A kernel
+   computation, not an unbounded theorem: the unbounded model_satisfies_monitors is NOT proved for this slice. *)
+Theorem c14_monitors_accept_model_bounded :
+  sweep_cfg [0; 1; 1; 0; 0]%N 5 = true /\ sweep_cfg [0; 1; 2; 1; 0; 100; 200]%N 5 = true /\
+  sweep_cfg [0; 1; 1; 1; 1; 100]%N 5 = true /\ sweep_cfg [1; 1; 1; 0; 0]%N 5 = true /\
+  sweep_cfg [1; 2; 1; 1; 0; 100]%N 5 = true /\
+  sweep_after [0; 1; 1; 1; 0; 100; 100]%N [[1; 1; 0]; [2; 1]; [8; 0; 1]; [9; 0; 2]; [10; 0]; [11; 100]; [3]]%N 4 = true /\
+  sweep_after [0; 1; 1; 0; 0]%N [[1; 1; 0]; [2; 1]; [8; 0; 1]; [3]; [8; 1; 0]; [3]]%N 4 = true /\
+  sweep_after [1; 1; 1; 1; 0; 100]%N [[1; 1; 0]; [6; 1]; [4; 1]; [8; 0; 1]; [13; 0]; [14; 0]]%N 4 = true.
+Proof.
+  exact (conj sweep_plain (conj sweep_plain_backoff (conj sweep_plain_exitgate (conj sweep_state (conj sweep_state_mod2_backoff
+        (conj sweep_after_error_and_fired_timer (conj sweep_after_chain_of_three sweep_after_state_running))))))).
+Qed.
+Print Assumptions c14_monitors_accept_model_bounded.
